@@ -82,8 +82,9 @@ def compare(tag, x1, x2, stats, obs_map=None):
                 break
     c1, c2 = x1.get("cov"), x2.get("cov")
     if c1 and c2 and c1["dim"] == c2["dim"] and len(c1["flt"]) == len(c2["flt"]):
+        scale = max([abs(u) for u in c1["flt"]] + [1.0])
         for u, v in zip(c1["flt"], c2["flt"]):
-            if abs(u - v) > 2e-6 * max(abs(u), abs(v)) + 1e-9:
+            if abs(u - v) > 2e-6 * max(abs(u), abs(v)) + 1e-9 * scale:
                 fails.append("%s.cov: %r vs %r" % (tag, u, v))
                 break
     return fails
